@@ -132,8 +132,10 @@ SPEC["C18"] = {
    non-test in test position are reported at the first byte of THAT token with its length
    (C18_offending_token, C18_unknown_command_at_token, C18_non_test_at_token, C18_argument_at_token); the
    categories are also exercised against the implementation by the check with the expected offset computed
-   independently.  'never before the first invalidating token' in the
-   viable-prefix sense needs C01_complete and is checked on the implementation (mutants).""",
+   independently.  Second clause ("never before the first token that makes the script invalid"): whatever the
+   rejection, it is not reported inside a prefix of the grammar -- C18_not_inside_valid_prefix (by tokens) and
+   C18_never_before_first_invalid (by byte offsets, with the lexer's forward order C18_lexer_moves_forward).  The viable-prefix sense beyond the prefixes of wf_prefix (inside tests and
+   argument lists) is checked on the implementation (mutants).""",
     "imports": SIEVE_IMPORTS + "From SV Require Import PositionFacts TotalFacts CompleteFacts CompleteTree RejectFacts RejectExamples.\n",
     "theorems": [
         ("C18_split_unique", "PositionFacts.split_lf_unique",
@@ -162,6 +164,12 @@ SPEC["C18"] = {
          "a non-test (or no identifier at all) in test position: reported at that token"),
         ("C18_argument_at_token", "RejectFacts.illegal_arguments_rejected",
          "a tag the command does not take, a tag whose extension is not loaded, a surplus or ill-typed argument: reported at a token of the argument list"),
+        ("C18_lexer_moves_forward", "RejectFacts.lex_order",
+         "every token after a given one, and the place of a lexical error, lie strictly after its first byte"),
+        ("C18_not_inside_valid_prefix", "RejectFacts.reject_not_in_prefix",
+         "a rejection is never reported at a token of a prefix of the grammar: it is reported at a later token, at the lexical error, or at the end"),
+        ("C18_never_before_first_invalid", "RejectFacts.reject_not_before",
+         "second clause of the property: the reported offset is never before the first token after a prefix of the grammar"),
         ("C18_offending_examples", "RejectExamples.ex_unknown",
          "non-vacuity: line 3, column 4, length 3 for an unknown command inside a block, from the theorem"),
         ("raw", """(* non-vacuity: each token-level category on a concrete script, position = first byte of the token *)
